@@ -24,9 +24,9 @@ import (
 const (
 	// deliveryBound: handlers run on their own goroutine; a delivery normally takes microseconds.
 	// Waiting longer than this for an expected delivery is reported as a hang/missing delivery.
-	deliveryBound = 25 * time.Second
+	deliveryBound = 20 * time.Second
 	// caseBound: a whole case normally takes milliseconds.
-	caseBound = 45 * time.Second
+	caseBound = 30 * time.Second
 
 	baseTime = int64(1_700_000_000) // seconds; event number n has time baseTime+n
 )
@@ -109,7 +109,7 @@ func runBounded(cc *kit.Case, body func(x *ctx)) {
 		buf = buf[:runtime.Stack(buf, true)]
 		var blocked []string
 		for _, g := range strings.Split(string(buf), "\n\n") {
-			if strings.Contains(g, "github.com/influxdata/kapacitor/alert.") || strings.Contains(g, "kapacitor/services/alert.") {
+			if strings.Contains(g, "github.com/influxdata/kapacitor/") || strings.Contains(g, "bbolt") || strings.Contains(g, "verifharness/c09.") {
 				blocked = append(blocked, g)
 			}
 		}
@@ -119,7 +119,7 @@ func runBounded(cc *kit.Case, body func(x *ctx)) {
 		if strings.Contains(all, "alert.(*bufHandler).Close") && strings.Contains(all, "alert.(*publishHandler).Handle") && strings.Contains(all, "alert.(*Service).Collect") && strings.Contains(all, "RWMutex.RLock") {
 			sig = sigDrainDeadlock
 		}
-		x.fail(sig, "the case did not finish within %v; goroutines in the alert packages:\n%s", caseBound, all)
+		x.fail(sig, "the case did not finish within %v; goroutines in kapacitor, bolt and the harness:\n%s", caseBound, all)
 	}
 	x.mu.Lock()
 	defer x.mu.Unlock()
